@@ -230,11 +230,15 @@ def evalRel : RelOp → Int → Int → Option Bool
   | .eq, a, b => some (decide (a = b))
   | .match_, _, _ => none       -- not in `parse_selection`'s operator table: KeyError
 
-/-- plain decimal integer literal (the part of `ast.literal_eval` the model resolves) -/
+/-- plain decimal integer literal (the part of `ast.literal_eval` the model resolves); Python
+    rejects a leading zero on a non-zero decimal literal (`018` is a SyntaxError, `00` is 0) -/
+def decLit (ds : Str) : Option Nat :=
+  if ds ≠ [] ∧ ds.all isDigit ∧ (ds.head? ≠ some '0' ∨ ds.all (· = '0')) then parseNatChars ds else none
+
 def intLit (s : Str) : Option Int :=
   match s with
-  | '-' :: ds => if ds ≠ [] ∧ ds.all isDigit then (parseNatChars ds).map fun n => -(n : Int) else none
-  | ds => if ds ≠ [] ∧ ds.all isDigit then (parseNatChars ds).map fun n => (n : Int) else none
+  | '-' :: ds => (decLit ds).map fun n => -(n : Int)
+  | ds => (decLit ds).map fun n => (n : Int)
 
 def colIndex (cols : List (Str × Str)) (n : Str) : Option Nat :=
   cols.findIdx? (·.1 = n)
